@@ -40,6 +40,10 @@ RULE = (
     'strict subset of the factory kinds (accept), or the violation sits in a '
     'non-first algorithm or next to a valid reference (reject). Distinct = '
     'SHA-1 of case JSON.'
+    ' Packages may say DAWGIE_IGNORE = False or bring their own factory. Par'
+    't cli: the spawned command line judges a tree with / without an inject'
+    'ed violation while the other variant of the same package is importable'
+    ' (PYTHONPATH). '
 )
 ASSUMPTIONS = [
     'a package is "accepted" when _verify(_scan()) returns True (the command '
